@@ -110,7 +110,7 @@ func (ab *argBuilder) mk(t types.Type, name string, small bool, depth int) (engi
 		st := engine.Str{B: m.NondetBytes(name, n)}
 		return st, gl.VStr{S: st}
 	}
-	if depth > 2 {
+	if depth > 3 {
 		panic(&unsupportedArg{"nesting too deep at " + t.String()})
 	}
 	switch u := t.Underlying().(type) {
